@@ -1,9 +1,9 @@
-(* Obligation C20/normal_variance_antiderivative.  Statement as printed by Coq from Inferno.C20.DistProofs; proof by reference.
+(* Obligation C20/normal_variance_antiderivative.  Statement as printed by Coq from Inferno.C20.DistNormal; proof by reference.
    This file contains nothing else, so the statement cannot be weakened quietly. *)
 From Coq Require Import Reals List ZArith Bool.
 From Coquelicot Require Import Coquelicot.
 From Flocq Require Import Core.Raux.
-From Inferno Require Import Base.Num Base.NumR C20.Model C20.Spec C20.DistProofs.
+From Inferno Require Import Base.Num Base.NumR Gen.Distributions C20.Model C20.Spec C20.DistNormal.
 Import ListNotations.
 Open Scope R_scope.
 Theorem normal_variance_antiderivative : forall (erf : R -> R) (loc : T RN) (scale : R) (x : R_AbsRing),
@@ -14,5 +14,5 @@ Theorem normal_variance_antiderivative : forall (erf : R -> R) (loc : T RN) (sca
      scale * scale * normal_cdf RN erf x0 loc scale -
      scale * scale * ((x0 - loc) * normal_pdf RN (2 * PI) x0 loc scale)) x
     ((x - normal_mean RN loc) ^ 2 * normal_pdf RN (2 * PI) x loc scale).
-Proof. exact (@Inferno.C20.DistProofs.normal_variance_antiderivative). Qed.
+Proof. exact (@Inferno.C20.DistNormal.normal_variance_antiderivative). Qed.
 Print Assumptions normal_variance_antiderivative.
